@@ -54,19 +54,19 @@ successful one: the `dataset[]` bookkeeping stays sound, no index leaves `datase
 invariant holds — in particular after every successful seek. -/
 theorem interface_total_seek (nodes : List (List Nat)) (blk : Nat → Nat → Nat → Nat) (t : Term) (sk : List Int)
     (cs : Bool) (seeks : List Int) (hne : nodes ≠ []) (ops : List Op) (hops : OpsOk ops)
-    (hsafe : opsSafe { C05.openSeekable nodes blk t sk cs with seeks := seeks } true ops = true) :
-    CacheOk (runOps { C05.openSeekable nodes blk t sk cs with seeks := seeks } ops) ∧
-    (syncAfter { C05.openSeekable nodes blk t sk cs with seeks := seeks } true ops = true →
-      Inv (runOps { C05.openSeekable nodes blk t sk cs with seeks := seeks } ops)) := by
-  have hi := C05.inv_open nodes blk t sk cs
-  have hc := C05.cacheOk_open nodes blk t sk cs hne
-  have hr := C05.remaining_open nodes blk t sk cs hne
-  have hj : SeekableInv nodes.flatten { C05.openSeekable nodes blk t sk cs with seeks := seeks } true :=
-    { bufLt := hi.bufLt, cache := cacheOk_congr (s := C05.openSeekable nodes blk t sk cs) rfl rfl rfl hc,
+    (hsafe : opsSafe { openSeekable nodes blk t sk cs with seeks := seeks } true ops = true) :
+    CacheOk (runOps { openSeekable nodes blk t sk cs with seeks := seeks } ops) ∧
+    (syncAfter { openSeekable nodes blk t sk cs with seeks := seeks } true ops = true →
+      Inv (runOps { openSeekable nodes blk t sk cs with seeks := seeks } ops)) := by
+  have hi := inv_open nodes blk t sk cs
+  have hc := cacheOk_open nodes blk t sk cs hne
+  have hr := remaining_open nodes blk t sk cs hne
+  have hj : SeekableInv nodes.flatten { openSeekable nodes blk t sk cs with seeks := seeks } true :=
+    { bufLt := hi.bufLt, cache := cacheOk_congr (s := openSeekable nodes blk t sk cs) rfl rfl rfl hc,
       seeker := rfl, bytes := rfl, noSeekSkip := Or.inl rfl,
       sync := fun _ => ⟨{ cbIn := hi.cbIn, bufLt := hi.bufLt, clientEq := hi.clientEq, prov := hi.prov,
                           eofSrc := hi.eofSrc, srcOk := hi.srcOk, laterOk := hi.laterOk },
-                        0, by show remaining (C05.openSeekable nodes blk t sk cs) = _; rw [hr]; simp⟩ }
+                        0, by show remaining (openSeekable nodes blk t sk cs) = _; rw [hr]; simp⟩ }
   have := (ops_invariant nodes.flatten _ true ops hj hsafe hops).2
   exact ⟨this.cache, fun h => (this.sync h).1⟩
 
@@ -137,7 +137,7 @@ example : SrcOk [[1, 2], [3, 4, 5]] ∧ OpsOk [.ahead 3, .consume 2, .seek 0 .se
 
 /-- Non-vacuity of `interface_total_seek`: three nodes, a seek callback that fails at its third
 invocation, a history with a refused seek followed by a good one and reads. -/
-example : opsSafe { C05.openSeekable [[1, 2, 3], [], [4, 5, 6, 7]] (fun _ _ _ => 2) .eof [] true with seeks := [0, 0, -1] }
+example : opsSafe { openSeekable [[1, 2, 3], [], [4, 5, 6, 7]] (fun _ _ _ => 2) .eof [] true with seeks := [0, 0, -1] }
     true [.seek 9 .set, .seek 5 .set, .seek 1 .other] = true := by decide
 
 open LA.Filters in
